@@ -67,7 +67,7 @@ theorem C16_kernel_loop_insert_spec (xs : List Int) (i v : Int) :
     mlInsertFn xs i v = .ret (if v ∈ xs then xs else
       splice xs (clampIdx xs.length i) (clampIdx xs.length i) [v]) := by
   unfold mlInsertFn
-  rw [C16_kernel_loop_filter_spec]
+  simp only [C16_kernel_loop_filter_spec]
   by_cases h : v ∈ xs <;> simp [h, pyInsert_eq_splice]
 
 /-- the first occurrence of every item is kept (the model's `readd`, on integers) -/
@@ -81,7 +81,7 @@ theorem setitem_loop_spec (i v : Int) (its : List Int) (xs acc : List Int) :
   | nil => simp [mlSetItemFn.loop, readdInt]
   | cons x xs ih =>
     unfold mlSetItemFn.loop readdInt
-    rw [C16_kernel_loop_filter_spec]
+    simp only [C16_kernel_loop_filter_spec]
     by_cases h : x ∈ acc <;> simp [h, ih]
 
 /-- `__setitem__` (integer index) -/
@@ -240,7 +240,7 @@ theorem C16_kernel_loop_urls_insert_spec (xs known : List Int) (i v : Int) :
     urlsInsertFn xs known i v = .ret (if v ∈ xs ∨ v ∈ known then xs else
       splice xs (clampIdx xs.length i) (clampIdx xs.length i) [v]) := by
   unfold urlsInsertFn
-  rw [C16_kernel_loop_urls_filter_spec]
+  simp only [C16_kernel_loop_urls_filter_spec]
   by_cases h : v ∈ xs ∨ v ∈ known <;> simp [h, pyInsert_eq_splice]
 
 /-- the model's `readd` on integers -/
@@ -254,7 +254,7 @@ theorem urls_setitem_loop_spec (i v : Int) (its known : List Int) (xs acc : List
   | nil => simp [urlsSetItemFn.loop, readdK]
   | cons x xs ih =>
     unfold urlsSetItemFn.loop readdK
-    rw [C16_kernel_loop_urls_filter_spec]
+    simp only [C16_kernel_loop_urls_filter_spec]
     by_cases h : x ∈ acc ∨ x ∈ known <;> simp [h, ih]
 
 theorem C16_kernel_loop_urls_setitem_spec (xs known : List Int) (i v : Int) :
